@@ -3,6 +3,7 @@ package core
 import (
 	"fmt"
 	"go/token"
+	"os"
 	"go/types"
 	"regexp"
 	"sort"
@@ -31,6 +32,9 @@ type ViaKey struct {
 	Pred int
 	Succ int
 }
+
+// NewCut returns an empty cut for rules that select edges by SSA identity rather than by rendering.
+func NewCut() *Cut { return newCut() }
 
 func newCut() *Cut {
 	return &Cut{Edges: map[EdgeKey]bool{}, Instrs: map[ssa.Instruction]bool{}, Via: map[ViaKey]bool{}}
@@ -266,6 +270,9 @@ func (w *World) GateCut(fn *ssa.Function, g Gate) *Cut {
 			w.inlineTrivial = true
 			t2, f2 := w.NormLit(ifi.Cond, true), w.NormLit(ifi.Cond, false)
 			w.inlineTrivial = false
+			if os.Getenv("KVERIF_DEBUG2") != "" {
+				fmt.Fprintf(os.Stderr, "DEBUG2 %s b%d: %s  ||  %s\n", FnName(fn), b.Index, t.Expr, t2.Expr)
+			}
 			if t2.Expr != t.Expr {
 				for _, p := range g.Lits {
 					if p.Match(t2) {
@@ -521,6 +528,15 @@ func (w *World) calleeEstablishes(caller *ssa.Function, call *ssa.Call, idx int,
 	}
 	for _, s := range sinks {
 		if !w.RetGuarded(s, g) {
+			if os.Getenv("KVERIF_DEBUG") != "" {
+				c := w.GateCut(f, g)
+				fmt.Fprintf(os.Stderr, "DEBUG calleeEstablishes %s want=%s gate={%s}: sink %s not guarded; cut=%v\n", FnName(f), want, g.Text, s.Desc, c.EdgeLits)
+				for _, b := range f.Blocks {
+					if t, _, ok := w.BlockLits(b); ok {
+						fmt.Fprintf(os.Stderr, "DEBUG    lit b%d: %s\n", b.Index, t.String())
+					}
+				}
+			}
 			return false
 		}
 	}
@@ -895,6 +911,93 @@ func (w *World) HelperSites(fn *ssa.Function, re *regexp.Regexp, deep bool) []ss
 		}
 	}
 	return out
+}
+
+// WithHelpers calls visit for fn and then for every private helper fn calls (transitively, bounded), with the helper's
+// parameters rendered as the call's arguments while visit runs — so a structural scan written for fn's own blocks keeps
+// working when part of fn was extracted into a helper. via is the call instruction in the caller (nil for fn itself).
+func (w *World) WithHelpers(fn *ssa.Function, visit func(f *ssa.Function, via ssa.Instruction)) {
+	visit(fn, nil)
+	w.withHelpers(fn, fn, visit, map[*ssa.Function]bool{fn: true})
+}
+
+func (w *World) withHelpers(owner, fn *ssa.Function, visit func(f *ssa.Function, via ssa.Instruction), done map[*ssa.Function]bool) {
+	if w.seeDepth >= maxSeeDepth {
+		return
+	}
+	for _, f := range WithClosures(fn) {
+		for _, b := range f.Blocks {
+			for _, in := range b.Instrs {
+				callee, args, ok := w.helperCallee(f, in)
+				if !ok || done[callee] || !w.privateTo(callee, owner) || len(args) != len(callee.Params) {
+					continue
+				}
+				done[callee] = true
+				m := map[*ssa.Parameter]string{}
+				for j, p := range callee.Params {
+					m[p] = w.Render(args[j])
+				}
+				w.subst = append(w.subst, m)
+				w.seeDepth++
+				seeThrough++
+				visit(callee, in)
+				w.withHelpers(owner, callee, visit, done)
+				w.subst = w.subst[:len(w.subst)-1]
+				w.seeDepth--
+				seeThrough--
+			}
+		}
+	}
+}
+
+// EnterHelper: v is the (only) result of a call to a private helper of owner that has exactly one return. It returns the
+// helper, the value it returns, and a function that must be called to leave; until then the helper's parameters render
+// as the call's arguments. ok=false (and a no-op leave) otherwise.
+func (w *World) EnterHelper(owner *ssa.Function, v ssa.Value) (h *ssa.Function, ret ssa.Value, leave func(), ok bool) {
+	leave = func() {}
+	k := 0
+	call, isCall := v.(*ssa.Call)
+	if ex, isEx := v.(*ssa.Extract); isEx {
+		call, isCall = ex.Tuple.(*ssa.Call)
+		k = ex.Index
+	}
+	if !isCall || w.seeDepth >= maxSeeDepth {
+		return nil, nil, leave, false
+	}
+	callee, args, good := w.helperCallee(owner, call)
+	if !good || !w.privateTo(callee, owner) || len(args) != len(callee.Params) || k >= callee.Signature.Results().Len() {
+		return nil, nil, leave, false
+	}
+	if _, isEx := v.(*ssa.Extract); !isEx && callee.Signature.Results().Len() != 1 {
+		return nil, nil, leave, false
+	}
+	var r *ssa.Return
+	for _, b := range callee.Blocks {
+		if len(b.Instrs) == 0 || (len(b.Preds) == 0 && b.Index != 0) {
+			continue
+		}
+		if x, isRet := b.Instrs[len(b.Instrs)-1].(*ssa.Return); isRet {
+			if r != nil {
+				return nil, nil, leave, false
+			}
+			r = x
+		}
+	}
+	if r == nil {
+		return nil, nil, leave, false
+	}
+	m := map[*ssa.Parameter]string{}
+	for j, p := range callee.Params {
+		m[p] = w.Render(args[j])
+	}
+	w.subst = append(w.subst, m)
+	w.seeDepth++
+	seeThrough++
+	return callee, resolveSpilled(r, r.Results[k]), func() {
+		w.subst = w.subst[:len(w.subst)-1]
+		w.seeDepth--
+		seeThrough--
+	}, true
 }
 
 // privateTo: h is an unexported helper all of whose (non-test) callers belong to owner (its closures included) or are
